@@ -58,6 +58,12 @@ def gen_C20(rng, tier):
         out.append(('blakearena %s %d %d' % (hexb(arena), o, rng.randrange(0, n - o + 1)), 'blake/arena'))
     out.append(('keccakarena x616362 [0,1,2,1,1,1]', 'keccak/arena-out-of-order'))
     out.append(('keccakarena x612d2d7461696c [0,1,4,2]', 'keccak/arena-spare-capacity'))
+    ar = rnd_bytes(rng, 64)
+    out.append(('keccakarena %s %s' % (hexb(ar), lst([v for i in range(64) for v in (i, 1)])), 'keccak/64-one-byte-slices'))
+    out.append(('keccakarena %s %s' % (hexb(ar), lst([0, 64, 0, 64, 0, 64])), 'keccak/same-slice-three-times'))
+    big = rnd_bytes(rng, 300)
+    out.append(('keccak %s %s' % (hexb(big[:4]), hexb(big[4:])), 'keccak/short-then-long'))
+    out.append(('keccak %s %s %s' % (hexb(big[:135]), hexb(big[135:136]), hexb(big[136:])), 'keccak/rate-boundary-split'))
     out.append(('keccak', 'keccak/0slices'))
     out.append(('keccak nil', 'keccak/nil'))
     out.append(('keccak x x x x', 'keccak/empties'))
@@ -172,6 +178,9 @@ def gen_C15(rng, tier):
 def scalars(rng, tier):
     s = [0, 1, 2, 3, 7, 8, L - 1, L, L + 1, ORDER - 1, ORDER, ORDER + 1, 2**253, 2**254, 2**256 - 1, 2**256, 2**256 + 1]
     s += [rng.randrange(2**k) for k in ((16, 64, 251, 254, 300, 512) if tier == 'quick' else (8, 16, 32, 64, 128, 200, 251, 252, 253, 254, 255, 256, 300, 400, 511, 512))]
+    # bit-length and bit-pattern boundaries of the double-and-add loop
+    s += [2**k for k in (31, 32, 63, 64, 65, 128, 192, 255, 511)] + [2**k - 1 for k in (64, 128, 251, 512)] + \
+         [2**255 + 1, 2 * L, 4 * L, 7 * L, ORDER * 2**200, ORDER * 2**200 + 1]
     return s
 
 
@@ -242,6 +251,9 @@ def gen_C13(rng, tier):
     # non-canonical coordinates (outside the property's domain, still compared with the model)
     for P in pts[:4]:
         out.append(('incurve %d %d' % (P[0] + Q, P[1]), 'incurve/noncanonical'))
+        out.append(('insub %d %d' % (P[0] + Q, P[1]), 'insub/noncanonical'))
+        out.append(('insub %d %d' % (P[0], P[1] - Q), 'insub/noncanonical'))
+        out.append(('incurve %d %d' % (P[0] - Q, P[1] + Q), 'incurve/noncanonical'))
     return out
 
 
@@ -274,6 +286,10 @@ def gen_C06(rng, tier):
         out.append(('decompress ' + hexb(rnd_bytes(rng, 32)), 'decompress/random'))
     for c in (0, 1, (Q - 1) // 2, (Q + 1) // 2, Q - 1, Q, -1):
         out.append(('csign %d' % c, 'csign/boundary'))
+    for y in (2**255, 2**255 + 1, 2**256 - 1, 2**255 + Q - 1):
+        for sg in ('true', 'false'):
+            out.append(('packsigny %s %d' % (sg, y), 'packsigny/y-collides-with-sign-bit'))
+        out.append(('compress %d %d' % (B8[0], y), 'compress/y-collides-with-sign-bit'))
     return out
 
 
@@ -388,6 +404,15 @@ def gen_C01(rng, tier):
         out.append(('poseidonh ' + lst(vecs[-1]), 'Hash/t=%d' % (n + 1)))
         out.append(('poseidonex %d %s' % (n + 1, lst(vecs[-2])), 'HashEx/t=%d' % (n + 1)))
         out.append(('poseidonhs %d %s' % (rng.randrange(Q), lst(vecs[-1])), 'HashWithState/t=%d' % (n + 1)))
+        # the thin wrappers on the boundary vectors; capacities that need more than one machine word
+        for bv in ([0] * n, [Q - 1] * n):
+            out.append(('poseidonh ' + lst(bv), 'Hash/boundary/t=%d' % (n + 1)))
+            out.append(('poseidonex 1 ' + lst(bv), 'HashEx/nOuts=1/t=%d' % (n + 1)))
+        cap = rng.choice([2**64, 2**64 + 5, 2**128 + 1, 2**192, 2**253, Q - 2**64])
+        out.append(('poseidonhs %d %s' % (cap, lst(vecs[0])), 'HashWithState/wide-capacity/t=%d' % (n + 1)))
+        out.append(('poseidon %d %d %s' % (cap, n + 1, lst(vecs[0])), 'HashWithStateEx/wide-capacity/t=%d' % (n + 1)))
+    for no in (2**31 - 1, 2**31, 2**63 - 1, -2**63, -1, 0):
+        out.append(('poseidon 0 %d [1,2]' % no, 'HashWithStateEx/extreme-nOuts'))
     return out
 
 
@@ -426,6 +451,9 @@ def gen_C07(rng, tier):
         out.append(('infield %d' % v, 'CheckBigIntInField'))
     for n in (0, 1, 30, 31, 32, 62, 63, 100):
         out.append(('mimcbytes ' + hexb(b'\xff' * n), 'mimc7.HashBytes/all-ff'))
+    for b in (b'\x00', b'\x00\x00', bytes(31), bytes(32), bytes(62), bytes(63), b'\x01\x00', rnd_bytes(rng, 31) + b'\x00',
+              rnd_bytes(rng, 31) + bytes(31) + rnd_bytes(rng, 5), rnd_bytes(rng, 30) + b'\x00', bytes(31) + b'\x07', rnd_bytes(rng, 62) + bytes(3)):
+        out.append(('mimcbytes ' + hexb(b), 'mimc7.HashBytes/zero-bytes'))
     return out
 
 
@@ -494,6 +522,9 @@ def gen_C08(rng, tier):
     for n in blens:
         out.append(('mimcbytes ' + hexb(rnd_bytes(rng, n)), 'HashBytes/len%%31=%d' % (n % 31)))
         out.append(('mimcbytes ' + hexb(b'\xff' * n), 'HashBytes/all-ff'))
+    for b in (b'\x00', b'\x00\x00', bytes(31), bytes(32), bytes(62), bytes(63), b'\x01\x00', rnd_bytes(rng, 31) + b'\x00',
+              rnd_bytes(rng, 31) + bytes(31) + rnd_bytes(rng, 5), rnd_bytes(rng, 30) + b'\x00', bytes(31) + b'\x07', rnd_bytes(rng, 62) + bytes(3)):
+        out.append(('mimcbytes ' + hexb(b), 'HashBytes/zero-bytes'))
     out.append(('mimc7g 1 2 0', 'MIMC7HashGeneric/n=0'))
     return out
 
@@ -797,6 +828,9 @@ def gen_C02(rng, tier):
         for m in (rng.sample(msgs(rng, tier), 3) if tier == 'quick' else msgs(rng, tier)):
             out.append(('signp %s %d' % (hexb(k), m), 'SignPoseidon'))
             out.append(('signm %s %d' % (hexb(k), m), 'SignMimc7'))
+    for m in (255, 256, 2**16 - 1, 2**64 - 1, 2**64, 2**128, 2**192, 2**240, 2**248 - 1, 2**248, 2**253, Q - 1):
+        out.append(('signp %s %d' % (hexb(ks[1]), m), 'SignPoseidon/msg-byte-length-boundary'))
+        out.append(('signm %s %d' % (hexb(ks[1]), m), 'SignMimc7/msg-byte-length-boundary'))
     for m in (Q, Q + 1, -1, 2**256):
         out.append(('signp %s %d' % (hexb(ks[2]), m), 'SignPoseidon/msg-out-of-field'))
         out.append(('signm %s %d' % (hexb(ks[2]), m), 'SignMimc7/msg-out-of-field'))
